@@ -35,27 +35,20 @@ theorem descrs_are_the_sites :
 /-- The sites whose body the translator cannot describe: they stay tied by their hashes and enter
 `drc_planning_deterministic` with an explicit hypothesis. Everything else is described. -/
 theorem hash_tied_sites :
-    (descrs.filter (fun d => !d.body.described)).map (fun d => (d.fn, d.mapExpr)) =
-      [("State.diffConfig", "comb[prefix]"), ("parser.addDefaults", "defaultObjects"),
-       ("LoadConfig", "defaultVals")] := by decide
+    (descrs.filter (fun d => !d.body.described)).map (fun d => (d.file, d.fn)) =
+      [("cisco/diff.go", "State.diffConfig"), ("cisco/parse.go", "parser.addDefaults"),
+       ("program/config.go", "LoadConfig")] := by decide
 
-/-- The descriptor read off the source agrees with the shape assigned by hand in `expected`. -/
-def shapeAgrees : Shape → Body → Bool
-  | .anyHit, .anyHit => true
-  | .collectSorted, .collectSorted _ => true
-  | .ownKey, .effects l => l.any (fun e => match e with | .ownKey _ => true | _ => false) &&
-      l.all (fun e => match e with | .ownKey _ => true | .ownField _ => true | _ => false)
-  | .perObject, .effects l => l.all (fun e => match e with | .ownField _ => true | _ => false) && !l.isEmpty
-  | .setInsert, .effects l => l.all (fun e => match e with | .setInsert _ => true | _ => false) && !l.isEmpty
-  | .ownKeySetInsert, .effects l =>
-      l.all (fun e => match e with | .ownKey _ => true | .setInsert _ => true | _ => false) && !l.isEmpty
-  | _, .opaque _ => true
-  | _, _ => false
-
-theorem descr_agrees_with_shape :
-    descrs.all (fun d => expected.any (fun e =>
-      e.file == d.file && e.fn == d.fn && e.mapExpr == d.mapExpr && e.ord == d.ord && shapeAgrees e.shape d.body)) = true := by
-  decide
+/-- **Described ⇒ order-insensitive, for every semantics.** The statement that makes a hand-written
+row unnecessary: for every site of the regenerated list whose body is described, running the body over
+any two permutations of entries with distinct keys and separate objects gives the same program state,
+whatever the body computes. -/
+theorem described_sites_order_insensitive {K V C : Type} [DecidableEq K] :
+    ∀ d, d ∈ descrs → d.body.described = true →
+      ∀ (sem : Sem K V) (sem2 : Sem2 K) (p : PState K V C) (es₁ es₂ : List (Entry K)),
+        DistinctKeys es₁ → SeparateEntries es₁ → es₁.Perm es₂ →
+        runBody d.fn d.body sem sem2 p es₁ = runBody d.fn d.body sem sem2 p es₂ :=
+  fun d _ _ sem sem2 p _ _ hk hs perm => runBody_perm d.fn d.body sem sem2 p hk hs perm
 
 /-! ## Invocations of sites by the glue code -/
 
@@ -150,7 +143,7 @@ namespace NA.C16.Run
 
 def obligations : List Lean.Name := [
   ``NA.C16.D.effStep_commOn, ``NA.C16.D.runBody_perm,
-  ``NA.C16.descrs_are_the_sites, ``NA.C16.hash_tied_sites, ``NA.C16.descr_agrees_with_shape,
+  ``NA.C16.descrs_are_the_sites, ``NA.C16.hash_tied_sites, ``NA.C16.described_sites_order_insensitive,
   ``NA.C16.drc_planning_deterministic, ``NA.C16.drc_planning_deterministic_described]
 
 end NA.C16.Run
